@@ -39,6 +39,9 @@ CHECKS = {
     'C18': ("model_checking", "to_xml() and to_dot() executed on the LLVM IR incl. xml-builder, itertools' sort, core::fmt, alloc::string (-Zbuild-std). The structure of the graph is a task (two vertex slots, nine shapes "
             "each: absent clean / absent with stale datum and edge / present with and without edges / empty, inline and heap data, read or unread); labels, edge targets and data bytes are symbolic. The text of a path is tokenised under "
             "one model and every byte outside the payload spans is proved fixed by the solver; then: one node per present vertex in ascending order, none for absent ids; per vertex exactly its edges (label text, target) and its data iff it has data.", "4 C18"),
+    'C20': ("model_checking", "inspect(v), Debug and v_print(v) executed on the LLVM IR (-Zbuild-std: core::fmt, itertools sort, hashbrown for inspect's HashSet with concrete keys). Edge structure (six shapes incl. cycles, shared targets, "
+            "an unreachable vertex) and data shapes are a task; labels and data bytes symbolic. Text tokenised under one model, every byte outside the payload proved fixed; inspect: terminates, multiset of printed edges = edges of the reachable "
+            "vertices (symbolic label equalities); Debug: exactly the present vertices with edges and data; v_print: data marker iff data, exactly the labels.", "4 C20"),
     'C19': ("model_checking", "Each configuration is shown to refine ONE functional step relation that mentions neither N nor the capacity (results, kids() order, next_id() = first absent id at or above the "
             "position, post-state up to the name of a new group's slot); two configurations that agree on the abstract state therefore agree on every answer. The executor reports ordering "
             "comparisons between pointers into different allocations (address-dependent behaviour); none occurs. merge/slice under arbitrary hash seeds are outside the claim.", "4 C19"),
@@ -53,7 +56,7 @@ KCHECKS = {
     'C15': ("model_checking", "Bounded model checking of the compiled Hex code for ALL byte strings of 0..=10 bytes in both representations (inline with arbitrary padding, heap), "
             "every index and every bound of the six range kinds as unconstrained usize: ok-harnesses compare with the byte slice, panic-harnesses show every path panics exactly "
             "when the slice index would. Equality across representations; i64/f64 conversions bit-exact, Err iff length != 8. The clause from_str(print(h)) == h, which Kani cannot finish for a single byte, "
-            "is decided by engine S on the LLVM IR incl. core::fmt (-Zbuild-std): every byte symbolic, lengths 0..=8 (quick) / 0..=10 (thorough), both representations.", "4 C15"),
+            "is decided by engine S on the LLVM IR incl. core::fmt (-Zbuild-std): every byte symbolic up to 5 bytes, windows of four symbolic bytes for 6..=8 (quick) / 6..=10 (thorough) bytes, both representations.", "4 C15"),
     'C16': ("model_checking", "All pairs of byte strings of 0..=9 bytes in the four representation combinations: outside the region of the recorded finding concat is exact "
             "byte-string concatenation and leaves operands unchanged; inside the region the solver's counterexample is reported as KNOWN-FINDING.", "4 C16"),
 }
@@ -79,7 +82,7 @@ for pid, (cat, text, ref) in CHECKS.items():
         "replay_cmd_template": "./check %s --replay {path}" % pid,
         "engine": "S",
         "level_claimed": {"category": cat, "text": text, "design_ref": "DESIGN.md section " + ref},
-        "level_note": T_NOTE if pid in ('C17', 'C08', 'C09', 'C18') else S_NOTE,
+        "level_note": T_NOTE if pid in ('C17', 'C08', 'C09', 'C18', 'C20') else S_NOTE,
         "technique": S_TECH if pid != 'C17' else "symbolic execution of rustc's LLVM IR incl. core/alloc/std (-Zbuild-std, own executor) + z3: all texts of a shape / all label values within stated bounds",
     })
 
@@ -88,7 +91,6 @@ NA = {
     'C11': "merge() is recursive over HashMap<usize,usize> with RandomState (SipHash of symbolic keys) and anyhow errors; not encodable within reach on either engine (DESIGN.md section 6)",
     'C12': "same code as C11 (merge with HashMap and formatted anyhow errors); not encodable within reach (DESIGN.md section 6)",
     'C13': "slice() uses HashSet/HashMap with RandomState over an emap-backed graph and a caller-supplied predicate; not encodable within reach (DESIGN.md section 6)",
-    'C20': "inspect()/Debug/v_print produce formatted text and inspect() walks with a HashSet whose keys would be symbolic edge targets (SipHash of symbolic values); the text route of C18 would apply to Debug/v_print but no obligation was built in the time available (DESIGN.md section 6)",
 }
 na = []
 for p in props:
